@@ -156,11 +156,12 @@ CLAIMED["C02"] = (
     DOCK_NOTE + " What the daemon does with since/until is outside this repository.", "DESIGN.md 4 C02")
 CLAIMED["C14"] = (
     "Coq proof (ledger invariant of build / closeOnError / deferred Close by induction over the query shape; stream-level fault theorems are C03's) + differential correspondence with single-fault plans under several completion orders",
-    "Theorems all_closed (for every query shape, listing failure and open-failure pattern: readers closed = readers opened), prefix_ledger_refuted (D13), list_failure_is_error, open_failure_is_error; with C03's cut_in_body / "
+    "Theorems all_closed (for every query shape, listing failure and open-failure pattern: readers closed = readers opened), prefix_ledger_refuted (D13), list_failure_is_error, open_failure_is_error, stream_fault_is_error "
+    "(an unlimited log query over one or many containers meets every stream fault: proved call by call over the iterator protocol incl. mergeIter's read-ahead and sticky errors); with C03's cut_in_body / "
     "daemon_error_frame / bad_timestamp / reader_failure theorems for what a faulty stream decodes to. The check runs six query shapes over 1-5 containers with one fault each (listing, open in the left or right operand, stream cut in a "
     "body, daemon error frame, bad timestamp, frame without space, reader failure at the first / middle / last frame, cut in a header = clean end by C03) under 2-3 completion orders and demands: closed = opened per container; an error "
     "whenever the fault precedes every record the query needs; a non-error answer equals the answer over the intended fault-free streams (no silent truncation); only selected containers are opened; log queries equal the exact "
-    "read-by-read model (sticky stream errors, merge read-ahead, limit check after the storage call). PARTIAL: that an unlimited log query always meets a stream fault is established by correspondence, not yet as a theorem about log_loop.",
+    "read-by-read model (sticky stream errors, merge read-ahead, limit check after the storage call). PARTIAL: for metric queries and for log queries with a positive limit, which faults are met is established by correspondence (exact model for limits, outcome-class demands for metrics), not by a theorem.",
     DOCK_NOTE, "DESIGN.md 4 C14")
 CLAIMED["C18"] = (
     "Coq proof (schedule independence of the index-addressed open; permutation invariance of the sorted Docker-label fold; commutation of slot writes; a float non-associativity witness) + exhaustive completion orders and repetition on order-sensitive queries",
